@@ -98,6 +98,11 @@ func (sf *suiteFunc) selects(o *Obligation) bool {
 	if len(sf.Only) == 0 {
 		return true
 	}
+	// postconditions are proved assuming the loop invariants: their establishment and preservation
+	// always belong to the same check
+	if strings.HasPrefix(o.Kind, "loop") {
+		return true
+	}
 	for _, p := range sf.Only {
 		if globMatch(p, id) {
 			return true
@@ -254,7 +259,12 @@ func mainCheck(args []string) int {
 	if err != nil {
 		return engineErr("contracts: %v", err)
 	}
-	outDir := filepath.Join(verifDir, "out", id)
+	outRoot, evDir := filepath.Join(verifDir, "out"), filepath.Join(verifDir, "evidence")
+	if sc := os.Getenv("GOVC_SCRATCH"); sc != "" {
+		// self-test runs: never touch the committed evidence or the main out directory
+		outRoot, evDir = filepath.Join(sc, "out"), filepath.Join(sc, "evidence")
+	}
+	outDir := filepath.Join(outRoot, id)
 	os.RemoveAll(outDir)
 	os.MkdirAll(outDir, 0o755)
 
@@ -451,9 +461,9 @@ func mainCheck(args []string) int {
 	}
 	ev := map[string]any{"property_id": id, "tier": tier, "seed": seed, "level": "proof", "coverage": cov, "assumptions": assume,
 		"wall_s": time.Since(t0).Seconds(), "violations": violations}
-	os.MkdirAll(filepath.Join(verifDir, "evidence"), 0o755)
+	os.MkdirAll(evDir, 0o755)
 	data, _ := json.MarshalIndent(ev, "", " ")
-	if err := os.WriteFile(filepath.Join(verifDir, "evidence", id+".json"), data, 0o644); err != nil {
+	if err := os.WriteFile(filepath.Join(evDir, id+".json"), data, 0o644); err != nil {
 		return engineErr("evidence: %v", err)
 	}
 	fmt.Printf("property=%s tier=%s obligations=%d discharged=%d covers=%d violations=%d wall=%.1fs\n", id, tier, total, discharged, covers, violations, time.Since(t0).Seconds())
